@@ -9,7 +9,7 @@ from .mir import Program
 
 REPO = os.environ.get('VERIF_REPO', '/repo')
 VERIF = os.path.dirname(os.path.dirname(os.path.abspath(__file__)))
-BUILD = os.path.join(VERIF, '.build')
+BUILD = os.environ.get('VERIF_BUILD') or os.path.join(VERIF, '.build')
 MIR_TARGET = os.path.join(BUILD, 'mir')
 
 CRATES = [
